@@ -19,21 +19,26 @@ CONSTANTS NElem,      \* number of elements of the document
           ObjElems,   \* the elements that are <object>
           NContents,  \* size of the pool of text contents
           TextElems,  \* the elements that have a text content (<indexes>, <u64values>, <userdata>)
+          ElemName,   \* sequence: the name of each element
+          AttrName,   \* sequence of sequences: the names of the attributes of each element
+          Sibs,       \* the pairs <<e, f>> of elements that are consecutive children of one parent
           MaxMut, SimLen
 VARIABLES muts
 
+MaxA == 16      \* attributes addressed per element
+
 Mutations ==
-       {<<"dropattr", e, a, 0>> : e \in 1..NElem, a \in 1..9} 
-  \cup {<<"setattr", e, a, v>> : e \in 1..NElem, a \in 1..9, v \in 1..NVals}
+       {<<"dropattr", e, a, 0>> : e \in 1..NElem, a \in 1..MaxA} 
+  \cup {<<"setattr", e, a, v>> : e \in 1..NElem, a \in 1..MaxA, v \in 1..NVals}
   \cup {<<"dupelem", e, 0, 0>> : e \in 2..NElem}
   \cup {<<"dropelem", e, 0, 0>> : e \in 2..NElem}
   \cup {<<"swapelems", e, f, 0>> : e \in 2..NElem, f \in 2..NElem}
   \cup {<<"truncate", k, 0, 0>> : k \in 1..15}
   \cup {<<"setversion", v, 0, 0>> : v \in 1..NVers}
-  \cup {<<"dupattr", e, a, 0>> : e \in 1..NElem, a \in 1..9}
+  \cup {<<"dupattr", e, a, 0>> : e \in 1..NElem, a \in 1..MaxA}
   \* the document ends inside the start tag of element e: (a = 0) before "<", after the name, before ">", after ">";
   \* (a > 0) after the name of attribute a, at the start, in the middle and at the end of its value
-  \cup {<<"cutat", e, a, w>> : e \in 1..NElem, a \in 0..9, w \in 1..4}
+  \cup {<<"cutat", e, a, w>> : e \in 1..NElem, a \in 0..MaxA, w \in 1..4}
   \cup {<<"doctype", v, 0, 0>> : v \in 1..NDoctypes}
   \* object e becomes an object of another type: its whole attribute list is replaced by template k
   \cup {<<"retype", e, k, 0>> : e \in ObjElems, k \in 1..NTemplates}
@@ -55,7 +60,7 @@ Kinds == {"dropattr", "setattr", "dupattr", "dupelem", "dropelem", "swapelems", 
 RandMut ==
   LET k == RandomElement(Kinds)
       e == RandomElement(1..NElem)   e2 == RandomElement(2..NElem)   f2 == RandomElement(2..NElem)
-      a0 == RandomElement(1..9)   v == RandomElement(1..NVals)   w == RandomElement(1..4)
+      a0 == RandomElement(1..MaxA)   v == RandomElement(1..NVals)   w == RandomElement(1..4)
       a == IF NAttr[e] = 0 THEN 0 ELSE ((a0 - 1) % NAttr[e]) + 1
   IN CASE k \in {"dropattr", "dupattr"} /\ a > 0 -> <<k, e, a, 0>>
        [] k = "setattr" /\ a > 0 -> <<k, e, a, v>>
@@ -74,6 +79,18 @@ SpecSim == Init /\ [][NextSim]_muts
 
 \* every recipe addresses existing elements and attributes only
 RecipeOK == \A k \in DOMAIN muts : Applicable(muts[k]) /\ (muts[k][1] \in {"dropattr", "setattr", "dupattr", "dupelem", "dropelem", "cutat", "retype"} => muts[k][2] <= NElem)
-EmitState == (muts # <<>>) => PrintT(<<"RECIPE", ToJson(muts)>>)
+\* the class of a mutation: what it does to which KIND of place (element name, attribute name, pool value), whatever the position of the
+\* place in the document.  Every class is replayed at least once (tools/props/c06.py takes the first recipe of each class over all base
+\* documents before it samples), so a value of the pool reaches every attribute of every element kind the exporter can write.
+IsRootObj(e) == e \in ObjElems /\ \A f \in ObjElems : f >= e
+Class(m) == CASE m[1] \in {"dropattr", "dupattr"} -> <<m[1], ElemName[m[2]], AttrName[m[2]][m[3]]>>
+              [] m[1] = "setattr" -> <<m[1], ElemName[m[2]], AttrName[m[2]][m[3]], ToString(m[4])>>
+              [] m[1] \in {"dupelem", "dropelem"} -> <<m[1], ElemName[m[2]]>>
+              [] m[1] = "swapelems" -> <<m[1], ElemName[m[2]], ElemName[m[3]], IF <<m[2], m[3]>> \in Sibs THEN "siblings" ELSE "apart">>
+              [] m[1] = "cutat" -> <<m[1], ElemName[m[2]], IF m[3] = 0 THEN "" ELSE AttrName[m[2]][m[3]], ToString(m[4])>>
+              [] m[1] = "retype" -> <<m[1], IF IsRootObj(m[2]) THEN "root" ELSE "inner", ToString(m[3])>>
+              [] m[1] = "setcontent" -> <<m[1], ElemName[m[2]], ToString(m[3])>>
+              [] OTHER -> <<m[1], ToString(m[2])>>
+EmitState == (muts # <<>>) => PrintT(<<"RECIPE", ToJson([r |-> muts, c |-> Class(muts[1])])>>)
 EmitSim == (Len(muts) = SimLen) => PrintT(<<"SIM", ToJson(muts)>>)
 =============================================================================
